@@ -260,12 +260,14 @@ def rowReduce (op : RedOp) (a : COO Int) (fill : Int) : COO Int :=
     | some sup => (runs.map fun (r, v, n) => (r, op.ap v (sup fill (nCols - n))), sup fill nCols)
   COO.build [a.shape.getD 0 0] (data.map fun (r, v) => ([r], v)) fill' true false true
 
-/-- `reduceCore` is: admissibility test, transpose + reshape to 2-D, `rowReduce`, reshape back -/
+/-- `reduceCore` is: admissibility test, empty-reduced-axis test (no super ufunc and a reduced extent
+of 0: `ValueError`), transpose + reshape to 2-D, `rowReduce`, reshape back -/
 theorem reduceCore_eq (op : RedOp) (x : COO Int) (axes : Option (List Nat)) (keepdims : Bool) :
     reduceCore op x axes keepdims =
       if op.ap x.fill x.fill ≠ x.fill ∧ op.super?.isNone then .error .value else
       let nd := x.shape.length
       let axes := match axes with | none => List.range nd | some a => a
+      if op.super?.isNone ∧ axes.any (fun a => x.shape.getD a 0 == 0) then .error .value else
       let kept := (List.range nd).filter fun a => !axes.contains a
       let a := (x.transposeCore (kept ++ axes)).reshapeCore
         [prod (kept.map fun d => x.shape.getD d 0), prod (axes.map fun d => x.shape.getD d 0)]
@@ -278,8 +280,29 @@ theorem reduceCore_eq (op : RedOp) (x : COO Int) (axes : Option (List Nat)) (kee
       else .ok (.arr out) := by
   unfold reduceCore
   by_cases h : op.ap x.fill x.fill ≠ x.fill ∧ op.super?.isNone
-  · simp only [h]; rfl
-  · simp only [h]; rfl
+  · simp only [if_pos h]; rfl
+  · cases axes with
+    | none =>
+      dsimp only
+      by_cases h2 : op.super?.isNone ∧ (List.range x.shape.length).any (fun a => x.shape.getD a 0 == 0)
+      · simp only [if_neg h, if_pos h2]; rfl
+      · simp only [if_neg h, if_neg h2]; rfl
+    | some axes =>
+      dsimp only
+      by_cases h2 : op.super?.isNone ∧ axes.any (fun a => x.shape.getD a 0 == 0)
+      · simp only [if_neg h, if_pos h2]; rfl
+      · simp only [if_neg h, if_neg h2]; rfl
+
+/-- a positive product of the gathered extents: none of them is 0 -/
+theorem any_zero_false_of_prod_pos (s : List Nat) : ∀ (axes : List Nat), 0 < prod (gather s axes) →
+    axes.any (fun a => s.getD a 0 == 0) = false
+  | [], _ => rfl
+  | a :: axes, h => by
+    simp only [gather, List.map_cons, prod] at h
+    have h1 : 0 < s.getD a 0 := Nat.pos_of_mul_pos_right h
+    have h2 : 0 < prod (gather s axes) := Nat.pos_of_mul_pos_left h
+    simp only [List.any_cons, any_zero_false_of_prod_pos s axes h2, Bool.or_false, beq_eq_false_iff_ne]
+    omega
 
 
 /-- (row, value) pairs of the stored entries, in storage order -/
@@ -803,6 +826,7 @@ theorem reduceCore_lift (op : RedOp) (x : COO Int) (axes : List Nat)
       (keysOf y.entries).Nodup → ∀ j, InB j (gather y.shape p) →
       (y.transposeCore p).get j = y.get (gather j (invPerm p)))
     (hadm : ¬ (op.ap x.fill x.fill ≠ x.fill ∧ op.super?.isNone))
+    (hguard : ¬ (op.super?.isNone ∧ axes.any (fun a => x.shape.getD a 0 == 0)))
     (hwf : x.WF) (hs : SortedLin x.shape x.entries) (hnd : axes.Nodup)
     (hr : ∀ a ∈ axes, a < x.shape.length) (kept : List Nat)
     (hkept : ((List.range x.shape.length).filter fun a => !axes.contains a) = kept) :
@@ -818,6 +842,8 @@ theorem reduceCore_lift (op : RedOp) (x : COO Int) (axes : List Nat)
       ∀ j, InB j (gather x.shape kept) →
         out.get j = (rowReduce op A A.fill).get [ravel j (gather x.shape kept)] := by
   rw [reduceCore_eq, if_neg hadm]
+  dsimp only
+  rw [if_neg hguard]
   have gdef : ∀ (s l : List Nat), (l.map fun d => s.getD d 0) = gather s l := fun _ _ => rfl
   simp only [gdef, Bool.false_eq_true, if_false, hkept]
   have hperm : (kept ++ axes).Perm (List.range x.shape.length) := hkept ▸ kept_axes_perm _ axes hnd hr
@@ -911,7 +937,9 @@ theorem reduceCore_sel_get (op : RedOp) (hsup : op.super? = none) (le : Int → 
         ∃ r ∈ allIdx (gather x.shape axes), x.get (gather (j ++ r)
             (invPerm (((List.range x.shape.length).filter fun a => !axes.contains a) ++ axes))) = out.get j := by
   obtain ⟨A, out, hAs, hAwf, hAsort, hAf, hAget, hred, hOs, hOf, hOget⟩ :=
-    reduceCore_lift op x axes transpose_get (fun h => h.1 (hidem _)) hwf hs hnd hr _ rfl
+    reduceCore_lift op x axes transpose_get (fun h => h.1 (hidem _))
+      (fun h => by rw [any_zero_false_of_prod_pos _ _ hpos] at h; exact Bool.false_ne_true h.2)
+      hwf hs hnd hr _ rfl
   obtain ⟨_, hRf, hRget⟩ := rowReduce_sel_get op hsup le hsel hl hr' htrans hrefl A _ _ hAs hAwf hAsort hpos
   refine ⟨out, hred, hOs, by rw [hOf, hRf, hAf], fun j hj => ?_⟩
   obtain ⟨hb, c, hc, hatt⟩ := hRget (ravel j (gather x.shape _))
